@@ -114,6 +114,15 @@ let handle (toks : string list) : string =
     res_unit (verify_uncles (cfg_of c) (hdrs_of chain) (blocks_of blocks) (z_of_string now) (block_of b))
   | ["uncles-as-stamped"; c; now; chain; blocks; b] ->
     res_unit (verify_uncles_v AsStamped (cfg_of c) (hdrs_of chain) (blocks_of blocks) (z_of_string now) (block_of b))
+  | ["pickseals"; len; freq; rands] ->
+    (match pick_seals (nat_of_int (int_of_string len)) (nat_of_int (int_of_string freq))
+             (list_tok ',' (fun x -> nat_of_int (int_of_string x)) rands) with
+     | None -> "panic"
+     | Some l -> "ok " ^ String.concat "" (List.map (fun b -> if b then "1" else "0") l))
+  | ["vchain"; c; now; chain; hs; seals] ->
+    (match validate_with_seals (cfg_of c) (hdrs_of chain) (z_of_string now) (hdrs_of hs) (bools seals) (fun _ -> false) with
+     | VOk -> "ok" | VNonContiguous -> "noncontiguous" | VBlacklisted i -> "blacklisted " ^ string_of_int (int_of_nat i)
+     | VFail (i, e) -> string_of_int (int_of_nat i) ^ " err " ^ verr_name e | VPanic -> "panic")
   | ["rlpnn"; sh] -> hex_of_bytes (rlp_no_nonce (sh_of sh))
   | ["rlpfull"; sh] -> hex_of_bytes (rlp_full (sh_of sh))
   | ["hnn"; sh; o] -> let o = oracle_of o in hex_of_bytes (hash_no_nonce keccak256 (argon o "B") (sh_of sh))
